@@ -82,6 +82,15 @@ def gen(rng, max_n=8, p_sel=0.3, p_fail=0.06, mixed=True):
     # the whole graph described in an INNER DAG that the executed DAG calls: the spliced nodes ("inner.n3") must keep
     # every attribute they were declared with (priority, is_sequential, resource, tag, activation flag)
     sc["nested"] = rng.random() < 0.2
+    if sc["sel"] is None and not sc["nested"] and not sc.get("handbuilt") and rng.random() < 0.1:
+        # an explicit setup() run: only the setup nodes execute, ranked by their compound priority in the WHOLE DAG
+        for i_, s_ in enumerate(specs):
+            s_["setup"] = s_["flag"] is None and all(specs[p_].get("setup") for p_ in s_["preds"]) and rng.random() < 0.7
+        if sum(1 for s_ in specs if s_.get("setup")) >= 1:
+            sc["op"] = "setup"
+        else:
+            for s_ in specs:
+                s_.pop("setup", None)
     sc["profile"] = rng.random() < 0.2      # TAWAZI_PROFILE_ALL_NODES: a documented option that must not change anything observed here
     if (not sc["nested"]) and all(not (s_["flag"] and s_["flag"][0] == "c") for s_ in specs) and rng.random() < 0.12:
         # the DAG is NOT traced: its node table is handed to the constructor (hand-built ExecNodes), listed in a random
@@ -101,7 +110,7 @@ def gen(rng, max_n=8, p_sel=0.3, p_fail=0.06, mixed=True):
                     how = how[0]
                 if how != "p":
                     s_["use"][str(j)] = how
-    if rng.random() < 0.25:
+    if rng.random() < 0.25 and sc.get("op") != "setup":
         # reconfigure between build and run (dict / json / yaml file / plain attribute assignment)
         rc = dict(how=rng.choice(["dict", "dict", "json", "yaml", "attr"]), maxc=None, nodes={})
         if rng.random() < 0.7:
@@ -306,7 +315,7 @@ def make_node(i, s):
         return value(i, s, args)
 
     body.__name__ = body.__qualname__ = "n%d" % i
-    node = xn(body, priority=s["prio"], is_sequential=s["seq"], resource=RES[s["res"]], tag=s.get("tag"))
+    node = xn(body, priority=s["prio"], is_sequential=s["seq"], resource=RES[s["res"]], tag=s.get("tag"), setup=bool(s.get("setup")))
     # from here on the node id ("n<i>") and the wrapped function's name differ, as they do for a function
     # used at several call sites ("f<<1>>") or inside a nested DAG ("inner.f"): messages must name the NODE
     body.__qualname__ = "impl_of_node_%d" % i
@@ -444,6 +453,14 @@ def _run_scenario(sc, timeout):
                 control.Script(rng=random.Random(sc["script"]["seed"]))
             R, outcome = control.run_controlled(lambda: asyncio.run(ex()) if sc["is_async"] else ex(), script, timeout=timeout)
             return dict(run=R, outcome=outcome, selected=graph_nodes, real_cp=real_cp, script_trace=script.trace)
+    if sc.get("op") == "setup":
+        g_ = d._pre_setup(None, None, None)       # the graph an explicit setup() runs
+        graph_nodes = {int(norm_id(x)[1:]) for x in g_.nodes if norm_id(x).startswith("n") and norm_id(x)[1:].isdigit()}
+        real_cp = {norm_id(k): g_.compound_priority[k] for k in list(g_.nodes)}
+        script = control.Script(decisions=sc["script"]["decisions"]) if "decisions" in sc["script"] else \
+            control.Script(rng=random.Random(sc["script"]["seed"]))
+        R, outcome = control.run_controlled(lambda: asyncio.run(d.setup()) if sc["is_async"] else d.setup(), script, timeout=timeout)
+        return dict(run=R, outcome=outcome, selected=graph_nodes, real_cp=real_cp, script_trace=script.trace)
     sel = sc.get("sel")
     if sel is None:
         graph_nodes = None
@@ -720,7 +737,7 @@ def monitors(sc, obs):
                     bad("C03", "wrong-execution-count", node=i, got=counts.get(i, 0), want=want)
                     if want == 1:
                         bad("C09", "returned-with-node-not-run", node=i)
-            if list(outcome[1]) != vals:
+            if sc.get("op") != "setup" and list(outcome[1]) != vals:
                 bad("C01", "wrong-return-value", got=outcome[1], want=vals)
     else:
         exc = outcome[1]
